@@ -25,7 +25,7 @@ RULE = (
     "(line-up, cut labelling)."
 )
 ASSUMPTIONS = ["cheap sampler classes only (order, not numerics, is at stake)", "the RL scheduler cannot be checkpointed (known finding under C04): RL runs use no restore"]
-REQUIRED_COUNTERS = {"rr_failed_batches_then_retry": 10, "rl_runs_with_a_zero_loss": 5, "rr_batches": 400, "rr_runs": 80, "rr_restores": 40, "rl_batches": 60, "rl_sessions": 25, "ctor_combinations": 8}
+REQUIRED_COUNTERS = {"rr_set_samplers_between_calls": 10, "rr_failed_batches_then_retry": 10, "rl_runs_with_a_zero_loss": 5, "rr_batches": 400, "rr_runs": 80, "rr_restores": 40, "rl_batches": 60, "rl_sessions": 25, "ctor_combinations": 8}
 SHARDS = {"quick": 16, "thorough": 16}
 SHARD_WATCHDOG = {"quick": 1500, "thorough": 10800}
 
@@ -71,8 +71,22 @@ def run_rr(desc, ctx, out):
         with quiet():
             cal = CG.build_calibrator(cfg, folder=folder)
         order = []
+        lineups = [list(cfg["lineup"])]      # line-up in force for each batch index
+        cur_lineup = list(cfg["lineup"])
+        expect = []
         try:
             for k, m in enumerate(parts):
+                if k > 0 and rng.random() < 0.2:
+                    newl = G.gen_lineup(rng, n=int(rng.integers(1, 4)), kinds=G.HISTORY_FREE + (["BestBatch"] if cal.n_sampled_params >= 2 else []), max_bs=2)
+                    for d_ in newl:
+                        if d_["kind"] == "BestBatch":
+                            d_["batch_size"] = 1
+                    with quiet():
+                        cal.set_samplers([G.build_sampler(d_) for d_ in newl])
+                    cur_lineup = newl
+                    c["rr_set_samplers_between_calls"] = c.get("rr_set_samplers_between_calls", 0) + 1
+                    wit.setdefault("set_samplers_before_call", {})[k] = [(d_["kind"], d_["batch_size"]) for d_ in newl]
+                expect += [cur_lineup] * m
                 if k > 0 and rng.random() < 0.25:
                     # a batch fails (the model raises once) and the user simply calls calibrate() again: the schedule must not shift
                     from vlib import models as MM
@@ -105,18 +119,19 @@ def run_rr(desc, ctx, out):
             continue
         for i, (pos, cname, rows, bs) in enumerate(order):
             c["rr_batches"] = c.get("rr_batches", 0) + 1
-            exp = cfg["lineup"][i % L]
-            if pos != i % L:
-                out["violations"].append({"msg": f"batch {i} of the calibrator's life was produced by position {pos} ({cname}), round-robin over {L} samplers prescribes position {i % L} "
+            Li = len(expect[i])
+            exp = expect[i][i % Li]
+            if pos != i % Li:
+                out["violations"].append({"msg": f"batch {i} of the calibrator's life was produced by position {pos} ({cname}), round-robin over {Li} samplers prescribes position {i % Li} "
                                                  f"(calls {parts}, restore after call {restores})", "witness": wit})
                 break
             if rows != exp["batch_size"] or cname != G.class_name(exp["kind"]):
                 out["violations"].append({"msg": f"batch {i}: {rows} rows from {cname}, prescribed {exp['batch_size']} rows from {G.class_name(exp['kind'])}", "witness": wit})
                 break
-        exp_rows = sum(cfg["lineup"][i % L]["batch_size"] for i in range(n))
+        exp_rows = sum(expect[i][i % len(expect[i])]["batch_size"] for i in range(n))
         if cal.n_sampled_params != exp_rows:
             out["violations"].append({"msg": f"{cal.n_sampled_params} rows recorded, the prescribed batches sum to {exp_rows}", "witness": wit})
-        bn = np.repeat(np.arange(n), [cfg["lineup"][i % L]["batch_size"] for i in range(n)])
+        bn = np.repeat(np.arange(n), [expect[i][i % len(expect[i])]["batch_size"] for i in range(n)])
         if cal.n_sampled_params == exp_rows and not np.array_equal(cal.batch_num_samp, bn):
             out["violations"].append({"msg": f"batch labels {cal.batch_num_samp.tolist()} expected {bn.tolist()}", "witness": wit})
         cuts = np.cumsum(parts)[:-1]
